@@ -646,11 +646,27 @@ def c01_17(ctx):
 
 def c01_14(ctx):
     """MEMO: no verdict / product is remembered under a key that leaves out part of (key, digest, r, s)"""
-    from sa.memo import memo_obligation
-    return memo_obligation(ctx, ["pecc"], "a tuple accepted for one key would be accepted for another")
+    from sa.memo import cache_obligation
+    return cache_obligation(ctx, ["pecc"], "a tuple accepted for one key would be accepted for another")
+
+
+def c01_18(ctx):
+    """SET-ORDER: no ordered result (list, serialisation, yielded sequence) of the modules this property is anchored in takes its
+    order from the iteration order of a set"""
+    from sa.setorder import setorder_obligation
+    return setorder_obligation(ctx, ["pecc"], "the same inputs give different output from run to run")
+
+
+def c01_19(ctx):
+    """SHARED necessary conditions over the modules this property is anchored in: FALSY-DEFAULT, MUTABLE-DEFAULT, IDENTITY, ALIAS,
+    CTOR-FORWARD (sa/shared.py)"""
+    from sa.shared import shared_obligations
+    return shared_obligations(ctx, ["pecc"], "the result would depend on something other than the arguments and the object's current state")
 
 
 OBLIGATIONS = [
+    ("C01.19", "SHARED", c01_19),
+    ("C01.18", "SET-ORDER", c01_18),
     ("C01.1", "RANGE accept-set", c01_1),
     ("C01.2", "GUARD relation", c01_2),
     ("C01.3", "RANGE output", c01_3),
